@@ -49,6 +49,7 @@ type Frame struct {
 	vc         *VC
 	fn         *ssa.Function
 	depth      int
+	atEdge     bool // a loop-edge clause is being evaluated (see lookupNameAt)
 	path       string
 	vals       map[ssa.Value]Val
 	reach      map[int]string
@@ -928,7 +929,7 @@ func (fr *Frame) lookupNameAt(name string, at *ssa.BasicBlock, atEnd bool, maxOr
 	}
 	// at the end of a block, a variable that a successor merges with a phi has exactly the value the phi takes from
 	// this edge (increments like x++ leave no debug binding of their own)
-	if atEnd && maxOrd == 0 {
+	if atEnd && maxOrd == 0 && fr.atEdge {
 		for _, s := range at.Succs {
 			for _, in := range s.Instrs {
 				ph, ok := in.(*ssa.Phi)
@@ -1257,7 +1258,9 @@ func (fr *Frame) checkLoopEntry(li *loopInfo, from *ssa.BasicBlock, cond string,
 	for i, cl := range fr.contract.LoopEntry[li.ordinal] {
 		env := fr.envAt(from, true, nil)
 		env.heap = heap
+		fr.atEdge = true
 		t, err := env.evalBool(cl.Expr)
+		fr.atEdge = false
 		if err != nil {
 			vc.specError(fr.fn, cl, err)
 			continue
@@ -1283,7 +1286,9 @@ func (fr *Frame) checkBackedge(li *loopInfo, from *ssa.BasicBlock, cond string, 
 		env.heap = heap
 		env.lhead = fr.headHeap[li.ordinal]
 		env.lheadBlk = li.head
+		fr.atEdge = true // the clause speaks about the state in which the edge is taken: variables have their end-of-block values
 		t, err := env.evalBool(cl.Expr)
+		fr.atEdge = false
 		if err != nil {
 			vc.specError(fr.fn, cl, err)
 			continue
